@@ -4,7 +4,7 @@ from __future__ import annotations
 import itertools
 import math
 
-from mc import harness, est
+from mc import harness, est, seqdiff
 from mc.common import HarnessError, Stats, pmap, safe, shards
 
 PROPERTY = 'C10'
@@ -12,7 +12,7 @@ LEVEL = 'exploration'
 RULE = ('compute_combined_features on every frame of 2 feature columns x 2 rows (quick) / x 3 rows (thorough) over the cell alphabet {"", 1, 11, 111, a, ab, b, ü, " "} '
         '(every prefix/suffix aliasing pattern), on 3- and 4-column frames built from every pair of different rows that alias under plain concatenation, orders 2..4, '
         'caps {1,2,large}; an int-typed family; oracle: equality pattern of each " AND " column == equality pattern of the value tuples, originals untouched, '
-        'count = min(cap, C(#features,k)), names in column order; a scoring family compares the interaction score with that of an explicit tuple column; one 300 000-tuple column (collision count of a hash narrower than 64 bits). '
+        'count = min(cap, C(#features,k)), names in column order; a scoring family compares the interaction score with that of an explicit tuple column; one 300 000-tuple column (collision count of a hash narrower than 64 bits); sequence differential over <= 3 successive batches (same names and row count, other content). '
         'distinct_nontrivial = frames in which at least two rows differ in some constituent')
 ASSUMPTIONS = ['64-bit hash collisions are outside the alphabet (excluded by the statement)']
 
@@ -199,8 +199,41 @@ def _birthday(_):
     return st
 
 
+SEQ_ROWS = [
+    [['p', 's', '0'], ['q', 't', '1'], ['p', 't', '0']],
+    [['q', 's', '1'], ['p', 's', '0'], ['q', 's', '1']],          # same names, same row count, other content
+    [['1', '11', '0'], ['11', '1', '1'], ['', 'ü', '0']],
+    [['p', 's', '0'], ['q', 't', '1']],                            # other row count
+]
+
+
+def seq_call(x):
+    ri, order, cap = x
+    import pandas as pd
+    from outrank import core_ranking as cr
+    cols = ['x', 'y', 'z', 'label'] if order == 3 else ['x', 'y', 'label']
+    rows = [r[:2] + [r[0] + r[1]] + r[2:] for r in SEQ_ROWS[ri]] if order == 3 else SEQ_ROWS[ri]
+    df = pd.DataFrame([list(r) for r in rows], columns=cols)
+    args = harness.make_args(interaction_order=order, combination_number_upper_bound=cap, heuristic='MI-numba-randomized')
+    out = cr.compute_combined_features(df, args, harness.NullBar())
+    return {c: [pattern(out[c].tolist()), out[c].tolist()] for c in out.columns}
+
+
+def seq_menu(job):
+    order, cap = job
+    return [(ri, order, cap) for ri in range(len(SEQ_ROWS))]
+
+
+def _seqdiff(job):
+    st = Stats()
+    seqdiff.run(seq_call, seq_menu(job), 3, st, lambda seq, pos: {'kind': 'seqdiff', 'job': list(job), 'seq': list(seq)}, {'kind': 'history_dependent'})
+    return st
+
+
 def _dispatch(item):
     k, job = item
+    if k == 'seqdiff':
+        return _seqdiff(job)
     if k == 'birthday':
         return _birthday(job)
     return {'two': _two_col, 'multi': _multi_col, 'ints': _ints, 'scoring': _scoring}[k](job)
@@ -218,6 +251,7 @@ def run(ctx):
         lim = np_ if (ctx.thorough or k == 3) else 600
         jobs += [('multi', (k, lo, hi)) for lo, hi in shards(lim, 48)]
     jobs += [('ints', None), ('scoring', None), ('birthday', None)]
+    jobs += [('seqdiff', (2, 2 ** 15)), ('seqdiff', (3, 2 ** 15))]
     for st in pmap(_dispatch, jobs):
         ctx.stats.merge(st)
     ctx.extra['rows_two_column_family'] = nrows
@@ -228,6 +262,8 @@ def run(ctx):
 
 
 def eval_case(case):
+    if case.get('kind') == 'seqdiff':
+        return seqdiff.replay(seq_call, seq_menu(tuple(case['job'])), case['seq'])
     if case.get('kind') == 'birthday':
         return [v['what'] for v in _birthday(None).violations]
     return [m for _, m in judge(case['columns'], case['rows'], case['order'], case['cap'])]
